@@ -133,6 +133,11 @@ pub struct Expect {
     /// every evaluation of a filter leaf that Rust's `&&` / `||` over the same trees makes, in
     /// order: (leaf index, the event it is shown, its answer)
     pub evals: Vec<(usize, Snap, bool)>,
+    /// coverage: right-hand sides the model skipped, evaluations of stateful leaves
+    pub and_right_skipped: u64,
+    pub or_right_skipped: u64,
+    pub stateful_evals: u64,
+    pub stateful_exhausted: u64,
 }
 
 /// Logical value of a filter tree on an event with `&&` / `||` semantics: the right side is not
@@ -156,11 +161,29 @@ fn feval_in(t: &FTree, leaves: &[FLeaf], ev: &MEvent, snap: &Snap, counts: &mut 
             let a = leaves[*i].eval_model(ev, counts[*i]);
             counts[*i] += 1;
             out.evals.push((*i, snap.clone(), a));
+            if let FLeaf::Budget(_) = leaves[*i] {
+                out.stateful_evals += 1;
+                if !a {
+                    out.stateful_exhausted += 1;
+                }
+            }
             a
         }
         FTree::Empty | FTree::Always | FTree::None => true,
-        FTree::And(a, b) => feval_in(a, leaves, ev, snap, counts, out) && feval_in(b, leaves, ev, snap, counts, out),
-        FTree::Or(a, b) => feval_in(a, leaves, ev, snap, counts, out) || feval_in(b, leaves, ev, snap, counts, out),
+        FTree::And(a, b) => {
+            if !feval_in(a, leaves, ev, snap, counts, out) {
+                out.and_right_skipped += 1;
+                return false;
+            }
+            feval_in(b, leaves, ev, snap, counts, out)
+        }
+        FTree::Or(a, b) => {
+            if feval_in(a, leaves, ev, snap, counts, out) {
+                out.or_right_skipped += 1;
+                return true;
+            }
+            feval_in(b, leaves, ev, snap, counts, out)
+        }
         FTree::Some(a) | FTree::Boxed(a) | FTree::Arced(a) | FTree::Ref(a) | FTree::Dyn(a) => feval_in(a, leaves, ev, snap, counts, out),
     }
 }
